@@ -43,33 +43,34 @@ func (r rcReq) String() string {
 }
 
 type rcCfg struct {
-	Reqs             []rcReq
-	Faults           env.FaultSet
-	KeepSession      bool
-	MethodB          bool
-	Clean            bool
-	AlwaysResub      bool
-	RespTimeout      time.Duration
-	RespTimeoutLate  bool // assign RetryClient.ResponseTimeout only after Connect has returned
-	ConnTimeout      time.Duration
-	PingInterval     time.Duration
-	WaitBase         time.Duration
-	WaitMax          time.Duration
-	PushAfterAck     []string       // messages "topic:payload:qos" the broker pushes after every accepting CONNACK
-	HandlerPhase     byte           // 0: no handler; 'B' before Connect; 'C' after Connect
-	AfterConnect     func(r *rcRun) // called by the main task right after Connect returned successfully
-	PingDelay        time.Duration  // the broker answers PINGREQ after this delay
-	KeepAliveOpt     uint16         // mqtt.WithKeepAlive(seconds) connect option (the reconnecting client derives its ping interval from it)
-	CancelConnectCtx bool           // Connect gets a cancellable context which the application cancels as soon as Connect has returned (the usual `defer cancel()`)
-	GrantMax         *byte          // the broker grants at most this QoS in SUBACK (nil: what was requested)
-	SlowOnError      time.Duration  // the OnError callback takes this long (virtual time), e.g. slow logging
-	Reentrant        bool           // callbacks call back into the client: ConnState reads Done/Err/Stats of its BaseClient and publishes a QoS 0 note through the retrying client on Active; OnError publishes a QoS 0 alarm; the message handler re-registers itself and publishes a QoS 0 echo
-	ReuseBase        bool           // the dialer hands out one and the same *BaseClient every time, with a fresh Transport
-	RepeatPubRec     bool           // the broker repeats PUBREC for unreleased QoS 2 messages right behind CONNACK on reconnects
-	EOFWriteErrors   bool           // a write on a broken link fails with an error that wraps io.EOF
-	PipeErrors       bool           // a locally closed transport reports io.ErrClosedPipe (net.Pipe) instead of a socket-style *net.OpError wrapping net.ErrClosed
-	HandleInState    bool           // the application (re-)registers its handler from inside the ConnState callback, on every StateActive
-	Manual           bool           // no ReconnectClient: the application drives a bare RetryClient itself (dial, SetClient, Connect, Resubscribe, Retry, wait for Done, redial)
+	Reqs                 []rcReq
+	Faults               env.FaultSet
+	KeepSession          bool
+	MethodB              bool
+	Clean                bool
+	AlwaysResub          bool
+	RespTimeout          time.Duration
+	RespTimeoutLate      bool // assign RetryClient.ResponseTimeout only after Connect has returned
+	ConnTimeout          time.Duration
+	PingInterval         time.Duration
+	WaitBase             time.Duration
+	WaitMax              time.Duration
+	PushAfterAck         []string       // messages "topic:payload:qos" the broker pushes after every accepting CONNACK
+	HandlerPhase         byte           // 0: no handler; 'B' before Connect; 'C' after Connect
+	AfterConnect         func(r *rcRun) // called by the main task right after Connect returned successfully
+	PingDelay            time.Duration  // the broker answers PINGREQ after this delay
+	KeepAliveOpt         uint16         // mqtt.WithKeepAlive(seconds) connect option (the reconnecting client derives its ping interval from it)
+	CancelConnectCtx     bool           // Connect gets a cancellable context which the application cancels as soon as Connect has returned (the usual `defer cancel()`)
+	GrantMax             *byte          // the broker grants at most this QoS in SUBACK (nil: what was requested)
+	HandleViaRetryClient bool           // "handle" requests go to the application's own *RetryClient (given to WithRetryClient) instead of the ReconnectClient
+	SlowOnError          time.Duration  // the OnError callback takes this long (virtual time), e.g. slow logging
+	Reentrant            bool           // callbacks call back into the client: ConnState reads Done/Err/Stats of its BaseClient and publishes a QoS 0 note through the retrying client on Active; OnError publishes a QoS 0 alarm; the message handler re-registers itself and publishes a QoS 0 echo
+	ReuseBase            bool           // the dialer hands out one and the same *BaseClient every time, with a fresh Transport
+	RepeatPubRec         bool           // the broker repeats PUBREC for unreleased QoS 2 messages right behind CONNACK on reconnects
+	EOFWriteErrors       bool           // a write on a broken link fails with an error that wraps io.EOF
+	PipeErrors           bool           // a locally closed transport reports io.ErrClosedPipe (net.Pipe) instead of a socket-style *net.OpError wrapping net.ErrClosed
+	HandleInState        bool           // the application (re-)registers its handler from inside the ConnState callback, on every StateActive
+	Manual               bool           // no ReconnectClient: the application drives a bare RetryClient itself (dial, SetClient, Connect, Resubscribe, Retry, wait for Done, redial)
 }
 
 type rcState struct {
@@ -136,7 +137,11 @@ func (r *rcRun) submit(i int) {
 		err = r.rc.Unsubscribe(ctx, q.Subs...)
 	case "handle":
 		name := q.Tag
-		r.rc.Handle(mqtt.HandlerFunc(func(m *mqtt.Message) {
+		target := mqtt.Client(r.rc)
+		if r.cfg.HandleViaRetryClient {
+			target = r.retry // the RetryClient object the application passed to WithRetryClient
+		}
+		target.Handle(mqtt.HandlerFunc(func(m *mqtt.Message) {
 			r.handledBy = append(r.handledBy, rcHandled{Handler: name, Payload: string(m.Payload), At: len(r.net.Trace)})
 			r.ev("handled " + name + " " + string(m.Payload))
 		}))
